@@ -91,4 +91,14 @@ def v2e (vals : List Int) (v : Int) : Option Nat :=
     | x :: xs, i, acc => go xs (i + 1) (if x == v then some i else acc)
   go vals 0 none
 
+/-- `type_base.__setitem__` with a slice, as the field stores it (after the repair 'part-select
+    assignment stores the result in the field's declared type'): the combined integer goes
+    through `set_val`. -/
+def partWriteField (w : Nat) (s : Bool) (cur : Int) (hi lo : Int) (val : Int) : Option Int :=
+  (partWrite cur hi lo val).map (scalarWrite w s)
+
+/-- `type_base.__setitem__` with a single index, as the field stores it -/
+def bitWriteField (w : Nat) (s : Bool) (cur : Int) (k : Int) (val : Int) : Option Int :=
+  (bitWrite cur k val).map (scalarWrite w s)
+
 end Pyvsc.Values
